@@ -37,12 +37,13 @@ func parseAckFrame(frame *AckFrame, b []byte, typ FrameType, ackDelayExponent ui
 	}
 	b = b[l:]
 
-	delayTime := time.Duration(delay*1<<ackDelayExponent) * time.Microsecond
-	if delayTime < 0 {
-		// If the delay time overflows, set it to the maximum encode-able value.
-		delayTime = time.Duration(math.MaxInt64)
+	// If the delay time would overflow, set it to the largest value that fits and that is still
+	// a whole number of wire units (so that it re-encodes to itself). The multiplications wrap
+	// around silently, also to positive values, so compare before multiplying.
+	if maxDelay := uint64(math.MaxInt64/int64(time.Microsecond)) >> ackDelayExponent; delay > maxDelay {
+		delay = maxDelay
 	}
-	frame.DelayTime = delayTime
+	frame.DelayTime = time.Duration(delay<<ackDelayExponent) * time.Microsecond
 
 	numBlocks, l, err := quicvarint.Parse(b)
 	if err != nil {
